@@ -191,6 +191,9 @@ structure Cfg where
       is recognised: a lower bound below / an upper bound above the range is dropped, a window that lies
       wholly outside is empty (false: the bound is converted anyway and wraps around) -/
   windowBoundsChecked : Bool
+  /-- a shift that finds, under the record guard, that a selected record is not wanted any more puts
+      it back into the indexes (`deleteHandlerIf`: `addTreasureToBeacons`) -/
+  claimLoserRefiled : Bool
   deriving DecidableEq, Repr
 
 def minInt64 : Int := -9223372036854775808
@@ -691,6 +694,38 @@ def matchList (cfg : Cfg) (st : St) (q : Query) : List Rec :=
 /-- …and deletes -/
 def stepShiftMatch (cfg : Cfg) (st : St) (q : Query) : St :=
   ((matchList cfg st q).map (·.key)).foldl stepDel (stepBuild cfg st q)
+
+/-! ### a shift whose selection pass and deletes are separated by another request
+
+    `CloneAndDeleteMatchingTreasures` selects under the beacon mutex (`ShiftMatching` takes the selected
+    records out of THAT beacon), then deletes each one under its record guard after asking the
+    predicate again.  Forced schedule: the shifter is held between the two (hook `shift.selected`). -/
+
+/-- the filter of the forced-schedule op: body counter `n >= v` (not indexable: evaluated whole, also
+    at the re-check) -/
+def claimPred (v : Int) (r : Rec) : Bool := r.ct == .bytes && decide (r.val ≥ v)
+
+/-- selection pass: build, take the first `limit` (0: all) matching records out of the walked slice -/
+def claimSelect (cfg : Cfg) (st : St) (q : Query) (v : Int) : St × List String :=
+  let st1 := stepBuild cfg st q
+  let ps := phys cfg q.slot
+  let p := st1.pairs ps
+  let l := if q.asc then p.asc else p.desc
+  let m := (windowed cfg q l).filter (claimPred v)
+  let keys := (if q.limit = 0 then m else m.take q.limit).map (·.key)
+  let p' := if q.asc then { p with asc := dropKeys keys p.asc } else { p with desc := dropKeys keys p.desc }
+  ({ st1 with pairs := setPair st1.pairs ps p' }, keys)
+
+/-- the deletes: a selected record that is gone is skipped; one that still matches is deleted and
+    handed out; one that does not is put back into the indexes — or (fact false) left where it is -/
+def claimRelease (cfg : Cfg) (st : St) (v : Int) (keys : List String) : St × List String :=
+  keys.foldl (fun (acc : St × List String) k =>
+    match findKey k acc.1.store with
+    | none => acc
+    | some r =>
+      if claimPred v r then (stepDel acc.1 k, acc.2 ++ [k])
+      else if cfg.claimLoserRefiled then ({ acc.1 with pairs := fun ps => (acc.1.pairs ps).insert cfg ps r }, acc.2)
+      else acc) (st, [])
 
 /-- Two first readers of a pair that is not built yet.  The first sits in `buildBeacon` between
     raising `initialized` on the ASC beacon and filling it; this is what the SECOND reader is
